@@ -2,7 +2,7 @@
 # Runs the repository's own test suite (hooks OFF: no workspace member enables `verif-hooks`) and
 # compares the passing tests with the 113 stable passes recorded in /root/.vp/BASELINE.json.
 # Exit 0 iff every baseline test still passes.
-cd /repo || exit 2
+cd "${1:-/repo}" || exit 2
 out=$(mktemp)
 cargo test --workspace --no-fail-fast --offline >"$out" 2>&1
 python3 - "$out" <<'PY'
